@@ -19,7 +19,7 @@ S = "sigpyproc/io/sigproc.py::"
 def outfile_obj():
     return Obj("OutFile", fields={"mode": Const("w+"), "nbytes": Int(0), "hdr_writes": Int(0), "hdr_after_data": Bool(),
                                   "seeks": Int(0), "closed": Const(False), "elems": Chunks("real"), "ebits": Int(),
-                                  "last_dtype": Str()})
+                                  "last_dtype": Str(), "buffered": Const(False)})
 
 
 def writer_self(nbits=None):
@@ -43,10 +43,12 @@ def register(reg):
                  lets={"nbits": "self.bitsinfo.nbits", "n0": "self.file_obj.nbytes"},
                  requires=["self.file_obj.ebits == 0 or self.file_obj.ebits == (8 if nbits < 8 else nbits)"],
                  modifies=["self.file_obj"],
-                 raises=[Raises("ValueError", when="nbits < 8 and arr.dtype != np.uint8",
+                 # refused (nothing written): a dtype that cannot be packed, or a sample count that is not a whole number of
+                 # bytes at a packed depth - samples are never dropped silently
+                 raises=[Raises("ValueError", when="nbits < 8 and (arr.dtype != np.uint8 or len(arr) % (8 // nbits) != 0)",
                                 post=[("nothing written", "self.file_obj.nbytes == old(self.file_obj.nbytes)")])])
-    # never another width than the header declares
-    c.ensure("width", "self.file_obj.nbytes == n0 + ((len(arr) // (8 // nbits)) if nbits < 8 else len(arr) * (nbits // 8))")
+    # never another width than the header declares: exactly size * nbits / 8 bytes
+    c.ensure("width", "(self.file_obj.nbytes - n0) * 8 == len(arr) * nbits")
     c.ensure("element size", "self.file_obj.ebits == (8 if nbits < 8 else nbits)")
     # ... and of the declared sample TYPE: an array of the same width but another kind (int32 into a float32 file) is converted
     c.ensure("element type", "self.file_obj.last_dtype == ('u1' if nbits <= 8 else ('u2' if nbits == 16 else 'f4'))")
@@ -77,18 +79,78 @@ def register(reg):
 
     class EmptyDict(Const):
         label = "dict"
+
+    class DepthDict(Const):
+        label = "dict-with-nbits"
+    from pvc.values import VInt
+    import z3
     c = Contract(H + "Header.prep_outfile#body", props=["C04", "C20", "C07", "C08"],
                  params={"self": header_obj(None, {"tsamp": Real()}), "filename": Opaque(), "updates": Const(None),
                          "nbits": Int(), "rescale": Const(False)},
-                 cases={"updates": [NoneV(None), EmptyDict(VDict({}))], "nbits": [NoneV(None), IntV()]},
+                 cases={"updates": [NoneV(None), EmptyDict(VDict({})), DepthDict(VDict({"nbits": VInt(z3.IntVal(8))}))],
+                        "nbits": [NoneV(None), IntV()]},
                  case_requires={("nbits", "int"): ["nbits in (1, 2, 4, 8, 16, 32)"]},
                  requires=["self.nbits in (1, 2, 4, 8, 16, 32)"],
                  inline_calls=[F + "FileBase._open"],
                  ret=Opaque())
     # the header that is encoded declares the depth the writer packs at (C08: nbits equals the on-disk depth)
     c.after_assign["new_hdr"] = [("header declares the written depth", "new_hdr.nbits == nbits")]
-    c.ensure("depth", "result.bitsinfo.nbits == (self.nbits if is_none(nbits) else nbits)")
+    # the depth: the explicit argument, else the one requested through the header updates, else the input's
+    c.ensure("depth", "result.bitsinfo.nbits == (nbits if not is_none(nbits) else "
+                      "((8 if not is_none(updates) and len(updates) == 1 else self.nbits)))")
     c.ensure("header once, first", "result.file_obj.hdr_writes == 1 and not result.file_obj.hdr_after_data and "
                                    "result.file_obj.nbytes == 0 and len(result.file_obj.elems) == 0")
     c.ensure("append mode", "result.file_obj.mode == 'w+' and result.file_obj.seeks == 0 and not result.file_obj.closed")
+    # C20: what a write returns from is on disk - the writer's file object is the raw io.FileIO, not a buffered stream
+    c.ensure("unbuffered", "not result.file_obj.buffered")
     reg.add(c)
+
+
+def register_to_tim(reg):
+    """TimeSeries.to_tim (C04, C20, C08): the whole series is appended once, as float32, behind a header written first that
+    declares 32 bits."""
+    from pvc.contract import Real
+    TS = "sigpyproc/timeseries.py::"
+    ts = Obj("TimeSeries", file="sigpyproc/timeseries.py",
+             fields={"_data": Arr("real", "f4"), "_header": header_obj(None, {"tsamp": Real(), "tstart": Real(), "dm": Real()})})
+    c = Contract(TS + "TimeSeries.to_tim", props=["C04", "C20", "C08"],
+                 params={"self": ts, "filename": Opaque()},
+                 requires=["self._header.nbits in (1, 2, 4, 8, 16, 32)"], ret=Opaque())
+    c.ensure("every sample written once, in order",
+             "len(outfile.usamples) == len(self._data) and forall(i, 0, len(self._data), outfile.usamples[i] == self._data[i])")
+    c.ensure("typestate", "outfile.file_obj.hdr_writes == 1 and not outfile.file_obj.hdr_after_data and outfile.file_obj.seeks == 0")
+    c.ensure("depth", "outfile.bitsinfo.nbits == 32 and outfile.out_header.nbits == 32")
+    c.ensure("timing metadata kept", "outfile.out_header.tsamp == self._header.tsamp and outfile.out_header.tstart == self._header.tstart "
+                                     "and outfile.out_header.dm == self._header.dm")
+    reg.add(c)
+
+
+def register_block_to_file(reg):
+    """FilterbankBlock.to_file (C04, C20, C08): the block is written time-major (sample t, channel c at t*nchans + c), once,
+    as float32 behind a header that declares 32 bits."""
+    from pvc.contract import Arr2, Real
+    BL = "sigpyproc/block.py::"
+    hdr = header_obj(None, {"tsamp": Real(), "tstart": Real(), "dm": Real(), "foff": Real(), "fch1": Real()})
+    blk = Obj("FilterbankBlock", file="sigpyproc/block.py", fields={"_data": Arr2("real", "f4"), "_header": hdr, "_dm": Real()})
+    c = Contract(BL + "FilterbankBlock.to_file", props=["C04", "C20", "C08"],
+                 params={"self": blk, "filename": Opaque()},
+                 requires=["self._header.nbits in (1, 2, 4, 8, 16, 32)"], ret=Opaque())
+    c.ensure("time-major, every sample once",
+             "len(out_file.usamples) == self._data.shape[0] * self._data.shape[1] and "
+             "forall(t, 0, self._data.shape[1], forall(c, 0, self._data.shape[0], "
+             "out_file.usamples[self._data.shape[0] * t + c] == self._data[c, t]))")
+    c.ensure("typestate", "out_file.file_obj.hdr_writes == 1 and not out_file.file_obj.hdr_after_data and out_file.file_obj.seeks == 0")
+    c.ensure("depth", "out_file.bitsinfo.nbits == 32 and out_file.out_header.nbits == 32")
+    c.ensure("metadata kept", "out_file.out_header.tsamp == self._header.tsamp and out_file.out_header.tstart == self._header.tstart "
+                              "and out_file.out_header.fch1 == self._header.fch1 and out_file.out_header.foff == self._header.foff "
+                              "and out_file.out_header.nchans == self._header.nchans")
+    reg.add(c)
+
+
+_r_w = register
+
+
+def register(reg):  # noqa: F811
+    _r_w(reg)
+    register_to_tim(reg)
+    register_block_to_file(reg)
